@@ -1,6 +1,6 @@
 SPECIFICATION Spec
 CONSTANTS
-  ThrKinds = {"none", "below_min", "selective"}
+  ThrKinds = {"none", "below_min", "selective", "selective_zero"}
   Variant = "delete_before_filter"
   MaxDepth = 8
   Emit = "none"
